@@ -170,9 +170,26 @@ func (t TOpt) String() string {
 
 // Sel is one descriptor selector.
 type Sel struct {
-	Kind string // dt id nogrp grp lid lgid pt oci
+	Kind string // dt id nogrp grp lid lgid pt oci P
 	N    int64
 	B    []byte
+	// P: a caller's own selector function from a finite family: it answers with an error of its
+	// own on the IDs in E and on data type ET, and otherwise accepts the IDs in M, data type MT and
+	// group MG (zero: none)
+	M, E   []uint32
+	MT, ET int64
+	MG     uint32
+}
+
+func idsPlus(ids []uint32) string {
+	if len(ids) == 0 {
+		return "-"
+	}
+	var p []string
+	for _, i := range ids {
+		p = append(p, fmt.Sprint(i))
+	}
+	return strings.Join(p, "+")
 }
 
 func (s Sel) String() string {
@@ -181,6 +198,8 @@ func (s Sel) String() string {
 		return "nogrp"
 	case "oci":
 		return "oci:" + hx(s.B)
+	case "P":
+		return fmt.Sprintf("P:%s:%s:%d:%d:%d", idsPlus(s.M), idsPlus(s.E), s.MT, s.ET, s.MG)
 	}
 	return fmt.Sprintf("%s:%d", s.Kind, s.N)
 }
